@@ -12,6 +12,7 @@ Driver for C09: `Uniflow.Runtime.step` over the line protocol.
   load all | load ids <k> <i1> … <ik>              → <obs>     (log since the previous observation)
   cs | cv                                          → <obs>     (consume one spec / value event)
   drain                                            → T <table> (consume every pending event)
+  close                                            → <obs>     (Runtime.Close: streams forgotten, every symbol freed)
 
   <obs>   = e<0|1> T <table> L <notes>             e1: Load returned an error
   <table> = symbols in ascending id, `id/kind/name/ver/a|i/U` or `…/B[key:vid:vname:vver,…]` (keys ascending); `-` when empty
@@ -148,6 +149,9 @@ def stepLine (st : St) (toks : List String) : St × String :=
     (st', showObs false st')
   | ["cv"] =>
     let st' := (step { st with log := [] } .consumeVal).1
+    (st', showObs false st')
+  | ["close"] =>
+    let st' := closeRt { st with log := [] }
     (st', showObs false st')
   | ["drain"] =>
     let st' := drain (st.specEv.length + st.valEv.length) { st with log := [] }
